@@ -32,7 +32,8 @@ NI long down(int d, body_fn f, int v, int round)
 	return x;
 }
 NI double fp_leaf(double a, float b, int c) { return a * (P_K2 + 0.5) + b / (c + 1.5); }
-NI long double fp_ld(long double x, int n) { return x * (P_K3 + 0.25L) + n; }
+/* the quotient needs all 64 mantissa bits of the x87 format: a result that went through a double is another number */
+NI long double fp_ld(long double x, int n) { return x * (P_K3 + 0.25L) / 7.0L + n; }
 NI struct dd fp_dd(double a, double b) { struct dd r = { a * 0.5 + b, b * 0.25 + P_K1 }; return r; }
 NI struct ll fp_ll(long a, long b) { struct ll r = { a + P_K2, b * 3 }; return r; }
 NI struct big fp_big(int n) { struct big r; for (int i = 0; i < 5; i++) r.v[i] = n * (i + P_K3); return r; }
